@@ -22,6 +22,7 @@ import re
 import dns.edns
 import dns.immutable
 import dns._immutable_ctx as ictx
+import dns.ipv4
 import dns.name
 import dns.rdata
 import dns.rdataclass
@@ -34,8 +35,8 @@ from lib import Err
 from lib import Hang as lib_Hang
 
 ID = "C07"
-COQ_IMPORTS = "From DV Require Import Model.SetM."
-COQ_RUN = "SetM.run"
+COQ_IMPORTS = "From DV Require Import Model.SetM Model.SetCanonM."
+COQ_RUN = "SetCanonM.run"
 CASE_TIMEOUT = 20.0
 TRUSTED = [
     "model: coq/Model/SetM.v (dns.set.Set, Rdataset/ImmutableRdataset/RRset set behaviour, Rdata __eq__/__hash__/_cmp over "
@@ -566,6 +567,143 @@ def is_immutable_value(o, path, bad):
     bad.append((path, "mutable or unknown " + type(o).__name__))
 
 
+# ------------------------------------------------------------------ records with their fields (kind 7)
+# a Python mirror of SetCanonM.schema_of, used to draw field values and to build the real record
+# through its class constructor (never through a codec)
+
+def _nm(v):
+    return dns.name.Name(v)
+
+
+def _mk(cls, typ, *args):
+    k = dns.rdata.get_rdata_class(dns.rdataclass.RdataClass.make(cls), dns.rdatatype.RdataType.make(typ))
+    return k(cls, typ, *args)
+
+
+_MXLIKE = ["u2", "name"]
+CANON = {
+    (1, 1): (["fixed4"], lambda c, t, v: _mk(c, t, dns.ipv4.inet_ntoa(v[0]))),
+    (1, 2): (["name"], lambda c, t, v: _mk(c, t, _nm(v[0]))),
+    (1, 5): (["name"], lambda c, t, v: _mk(c, t, _nm(v[0]))),
+    (1, 12): (["name"], lambda c, t, v: _mk(c, t, _nm(v[0]))),
+    (1, 39): (["name"], lambda c, t, v: _mk(c, t, _nm(v[0]))),
+    (3, 2): (["name"], lambda c, t, v: _mk(c, t, _nm(v[0]))),
+    (1, 15): (_MXLIKE, lambda c, t, v: _mk(c, t, v[0], _nm(v[1]))),
+    (3, 15): (_MXLIKE, lambda c, t, v: _mk(c, t, v[0], _nm(v[1]))),
+    (1, 18): (_MXLIKE, lambda c, t, v: _mk(c, t, v[0], _nm(v[1]))),
+    (1, 21): (_MXLIKE, lambda c, t, v: _mk(c, t, v[0], _nm(v[1]))),
+    (1, 36): (_MXLIKE, lambda c, t, v: _mk(c, t, v[0], _nm(v[1]))),
+    (1, 107): (_MXLIKE, lambda c, t, v: _mk(c, t, v[0], _nm(v[1]))),
+    (1, 6): (["name", "name", "u4", "u4", "u4", "u4", "u4"], lambda c, t, v: _mk(c, t, _nm(v[0]), _nm(v[1]), *v[2:])),
+    (1, 33): (["u2", "u2", "u2", "name"], lambda c, t, v: _mk(c, t, v[0], v[1], v[2], _nm(v[3]))),
+    (1, 17): (["name", "name"], lambda c, t, v: _mk(c, t, _nm(v[0]), _nm(v[1]))),
+    (1, 26): (["u2", "name", "name"], lambda c, t, v: _mk(c, t, v[0], _nm(v[1]), _nm(v[2]))),
+    (1, 35): (["u2", "u2", "c255", "c255", "c255", "name"], lambda c, t, v: _mk(c, t, v[0], v[1], v[2], v[3], v[4], _nm(v[5]))),
+    (1, 46): (["u2", "u1", "u1", "u4", "u4", "u4", "u2", "name", "rem"], lambda c, t, v: _mk(c, t, *v[:7], _nm(v[7]), v[8])),
+    (1, 24): (["u2", "u1", "u1", "u4", "u4", "u4", "u2", "name", "rem"], lambda c, t, v: _mk(c, t, *v[:7], _nm(v[7]), v[8])),
+    (1, 47): (["name", "bitmap"], lambda c, t, v: _mk(c, t, _nm(v[0]), tuple((w, bytes(b)) for w, b in v[1]))),
+    (1, 66): (["u2", "u1", "u2", "name"], lambda c, t, v: _mk(c, t, v[0], v[1], v[2], _nm(v[3]))),
+    (1, 16): (["txt"], lambda c, t, v: _mk(c, t, tuple(bytes(r[0]) for r in v[0]))),
+    (1, 65280): (["rem"], lambda c, t, v: dns.rdata.GenericRdata(c, t, v[0])),
+}
+_LABELS = [b"a", b"A", b"b", b"example", b"Example", b"EXAMPLE", b"x-1", b"Z", b"z", b"\x00", b"\xc4", b"\xe4", b"@", b"`"]
+
+
+def gen_canon_name(rng):
+    r = rng.random()
+    ls = [rng.choice(_LABELS) for _ in range(rng.choice([0, 1, 1, 2, 3]))]
+    if r < 0.02:
+        # close to the 255-octet limit: relative name that no longer fits with the root
+        ls = [b"a" * 63, b"b" * 63, b"c" * 63, b"d" * rng.choice([60, 61, 62])]
+        return ls if rng.random() < 0.5 else ls[:3] + [b"d" * 59, b""]
+    if r < 0.8:
+        ls.append(b"")
+    return ls
+
+
+def case_variant_name(rng, n):
+    return [bytes(ch ^ 0x20 if (65 <= ch <= 90 or 97 <= ch <= 122) and rng.random() < 0.5 else ch for ch in l) for l in n]
+
+
+def gen_canon_vals(rng, kinds):
+    out = []
+    for k in kinds:
+        if k == "name":
+            out.append(gen_canon_name(rng))
+        elif k[0] == "u":
+            w = int(k[1])
+            out.append(rng.choice([0, 1, 255 if w == 1 else 256, 256 ** w - 1, rng.randrange(256 ** w)]) % 256 ** w)
+        elif k == "fixed4":
+            out.append(bytes(rng.randrange(256) for _ in range(4)))
+        elif k == "c255":
+            out.append(bytes(rng.choice(b"aAbB\x00\xff") for _ in range(rng.choice([0, 1, 2, 5]))))
+        elif k == "rem":
+            out.append(bytes(rng.choice(b"aA\x00\x01\xff") for _ in range(rng.choice([0, 1, 3, 8]))))
+        elif k == "txt":
+            out.append([[bytes(rng.choice(b"aAbB\x00") for _ in range(rng.choice([0, 1, 2, 4])))] for _ in range(rng.randint(1, 3))])
+        elif k == "bitmap":
+            ws = sorted(rng.sample(range(0, 256), rng.randint(0, 3)))
+            out.append([[w, bytes([rng.randrange(1, 256)] * rng.randint(1, 3))] for w in ws])
+    return out
+
+
+def perturb_canon(rng, kinds, vals):
+    """a neighbour: case variant of a name (must stay equal for the RFC 4034 6.2 types), or one field changed"""
+    vals = [list(v) if isinstance(v, list) else v for v in vals]
+    i = rng.randrange(len(kinds))
+    r = rng.random()
+    names = [j for j, k in enumerate(kinds) if k == "name"]
+    if names and r < 0.6:
+        j = rng.choice(names)
+        vals[j] = case_variant_name(rng, vals[j])
+    elif r < 0.8:
+        vals[i] = gen_canon_vals(rng, [kinds[i]])[0]
+    elif names:
+        j = rng.choice(names)
+        n = vals[j]
+        vals[j] = n[:-1] if n and n[-1] == b"" else n + [b""]   # relative <-> absolute spelling
+    return vals
+
+
+def canon_rec(rid, ct, vals):
+    return [rid, ct[0], ct[1], vals]
+
+
+def run_canon(a, b):
+    objs = []
+    out = []
+    for r in (a, b):
+        kinds, build = CANON[(r[1], r[2])]
+        try:
+            rd = build(r[1], r[2], r[3])
+        except Exception as e:  # noqa
+            return Err(500, "constructor refused generated values: " + type(e).__name__ + " " + str(e)[:60])
+        objs.append(rd)
+    for rd in objs:
+        try:
+            try:
+                d, rel = rd.to_digestable(), 0
+            except dns.name.NeedAbsoluteNameOrOrigin:
+                d, rel = rd.to_digestable(ROOT), 1
+            out.append([d, rel])
+        except dns.name.NameTooLong:
+            out.append(Err(2, "NameTooLong"))
+    x, y = objs
+
+    def guard(f):
+        try:
+            return f()
+        except dns.name.NameTooLong:
+            return Err(2, "NameTooLong")
+
+    out.append(guard(lambda: int(x == y)))
+    out.append(guard(lambda: x._cmp(y)))
+    out.append(guard(lambda: int(hash(x) == hash(y)) if x.to_digestable(ROOT) == y.to_digestable(ROOT) else int(False)))
+    out.append(int(x.covers()))
+    out.append(guard(lambda: x.to_wire(origin=ROOT)))
+    return out
+
+
 # ------------------------------------------------------------------ impl
 
 
@@ -603,6 +741,8 @@ def _impl(case):
             return exc_code(e)
         _scribble_py(src)
         return from_py(r)
+    if k == 7:
+        return run_canon(case[1], case[2])
     return Err(900, "bad case")
 
 
@@ -985,6 +1125,22 @@ def _cases(ctx):
         yield "guard", [4, [[3, o, []] for o in range(4)] + gen_acts(rng, 3, set(range(4)), True)]
     for _ in range(ctx.n(300, 2000)):
         yield "constify", [5, gen_pval(rng, 3)]
+    # ---- records with their fields: digest, ==, hash, order on the real encodings
+    cts = sorted(CANON)
+    for _ in range(ctx.n(700, 6000)):
+        ct = rng.choice(cts)
+        kinds = CANON[ct][0]
+        va = gen_canon_vals(rng, kinds)
+        r = rng.random()
+        if r < 0.75:
+            ctb, vb = ct, perturb_canon(rng, kinds, va)
+        elif r < 0.9:
+            ctb, vb = ct, gen_canon_vals(rng, kinds)
+        else:
+            ctb = rng.choice([c for c in cts if CANON[c][0] == kinds] or [ct])
+            vb = va
+        if all(sum(len(l) + 1 for l in v) <= 255 for k, v in list(zip(kinds, va)) + list(zip(kinds, vb)) if k == "name"):
+            yield "canon", [7, canon_rec(0, ct, va), canon_rec(1, ctb, vb)]
     # ---- Rdata._as_bytes / _as_tuple(_as_bytes): what a binary field is normalised through
     for _ in range(ctx.n(300, 2000)):
         r = rng.random()
@@ -1379,6 +1535,72 @@ def oracle_cmp(kind, case, out, fail):
                 fail("relative/absolute ordering rule broken", sig="order")
 
 
+# RFC 4034 6.2 (3), as amended by RFC 6840 5.1 (NSEC removed): the types whose embedded names
+# are lower-cased in the canonical form
+RFC4034_DOWNCASE = {2, 3, 4, 5, 6, 7, 8, 9, 12, 13, 14, 15, 17, 18, 21, 24, 26, 30, 33, 35, 36, 38, 39, 46}
+
+
+def _lower(b):
+    return bytes(c + 32 if 65 <= c <= 90 else c for c in b)
+
+
+def ref_canonical(typ, kinds, vals):
+    """RFC 4034 6.2 canonical RDATA written from the RFC (names expanded to the root, lower-cased
+    for the listed types, nothing compressed); None when a completed name exceeds 255 octets;
+    also returns whether some name was relative"""
+    out = b""
+    rel = False
+    for k, v in zip(kinds, vals):
+        if k == "name":
+            n = list(v)
+            if not n or n[-1] != b"":
+                rel = True
+                n = n + [b""]
+            if sum(len(l) + 1 for l in n) > 255:
+                return None, rel
+            for l in n:
+                out += bytes([len(l)]) + (_lower(l) if typ in RFC4034_DOWNCASE else l)
+        elif k[0] == "u":
+            out += v.to_bytes(int(k[1]), "big")
+        elif k in ("fixed4", "rem"):
+            out += bytes(v)
+        elif k == "c255":
+            out += bytes([len(v)]) + bytes(v)
+        elif k == "txt":
+            for r in v:
+                out += bytes([len(r[0])]) + bytes(r[0])
+        elif k == "bitmap":
+            for w, b in v:
+                out += bytes([w, len(b)]) + bytes(b)
+    return out, rel
+
+
+def oracle_canon(case, out, fail):
+    a, b = case[1], case[2]
+    ka, kb = CANON[(a[1], a[2])][0], CANON[(b[1], b[2])][0]
+    ca, ra = ref_canonical(a[2], ka, a[3])
+    cb, rb = ref_canonical(b[2], kb, b[3])
+    da, db, eq, cmp_, heq, cov, wire = out
+    if ca is None or cb is None:
+        return  # a completed name does not fit: NameTooLong is the documented outcome
+    for d, c, r, w in ((da, ca, ra, "first"), (db, cb, rb, "second")):
+        if isinstance(d, Err) or bytes(d[0]) != c or bool(d[1]) != r:
+            fail(f"to_digestable of the {w} record is not the RFC 4034 6.2 canonical RDATA", sig="canonical")
+            return
+    want = (a[1], a[2]) == (b[1], b[2]) and ra == rb and ca == cb
+    if isinstance(eq, Err) or bool(eq) != want:
+        fail("== is not: same class, same type, same canonical RDATA (names case-insensitive for the RFC 4034 6.2 types)", sig="eq")
+    if want and not (heq == 1):
+        fail("equal records hash differently", sig="hash")
+    if (a[1], a[2]) == (b[1], b[2]) and not isinstance(cmp_, Err):
+        if ra != rb:
+            exp = -1 if ra else 1
+        else:
+            exp = (ca > cb) - (ca < cb)
+        if cmp_ != exp:
+            fail("record order is not canonical RDATA octet order", sig="order")
+
+
 def _guard_ref(acts):
     """setattr/delattr succeeds iff it happens inside the object's own __init__ (innermost)"""
     log, store = [], {}
@@ -1470,6 +1692,8 @@ def oracle(ctx, kind, case, out):
             fail("constify left a mutable container", sig="constify")
         if _shape(out) != _shape(case[1]):
             fail("constify changed the content", sig="constify")
+    elif k == 7:
+        oracle_canon(case, out, fail)
     elif k == 6:
         # a normalised binary field is bytes / a tuple of bytes, never the caller's buffer
         ok = out[0] == 2 if not case[5] else (out[0] == 6 and all(x[0] == 2 for x in out[1]))
